@@ -686,7 +686,7 @@ pub fn serialize_ops(mut ops: &[Op]) -> Result<Vec<u8>> {
             }
             Op::TextScaling { horiz_scale } => writeln!(f, "{} Tz", horiz_scale)?,
             Op::Leading { leading } => match ops[1..] {
-                [Op::MoveTextPosition { translation }, ..] if leading == -translation.x => {
+                [Op::MoveTextPosition { translation }, ..] if leading == -translation.y => {
                     writeln!(f, "{} {} TD", translation.x, translation.y)?;
                     advance += 1;
                 }
